@@ -484,8 +484,8 @@ printf("debug> macros_parse() param count=%d\n", param_count);
   {
     ch = tokens_get_char(asm_context);
 
-    // Tabs :(.
-    if (ch == '\t') { ch = ' '; }
+    // Tabs :(. Inside "strings" and 'c' constants they stay what they are.
+    if (ch == '\t' && quote == 0) { ch = ' '; }
 
     // chr(1) marks a parameter in the stored text.
     if (ch == 1)
@@ -675,7 +675,7 @@ char *macros_expand_params(
   {
     ch = tokens_get_char(asm_context);
 
-    if (ch == '\t') { ch = ' '; }
+    if (ch == '\t' && !in_string && !in_ticks) { ch = ' '; }
     if (ch == '\r') { continue; }
 
     // skip whitespace immediately after opening parenthesis or a comma
